@@ -35,8 +35,8 @@ def DEF_F(a, b=2, *args, **kwargs):
     return a
 def DEF_0():
     return 0
-BIG_S = "ab" * (1 << 19)
-BIG_L = [0] * (1 << 14)
+BIG_S = "ab" * (1 << 11)
+BIG_L = [0] * (1 << 12)
 NESTED_L = [[[[[]]]]]
 """
 
@@ -45,7 +45,7 @@ ARGS = [
     "-9223372036854775808", "-9223372036854775809", "(1 << 200)", "-(1 << 200)", "0.0", "-0.0", "1.5", "float(\"nan\")", "float(\"inf\")", "-float(\"inf\")", "1e308",
     "\"\"", "\"a\"", "\"abc\"", "\"%s\"", "\"{}\"", "\"{\"", "\"%\"", "\"\\u00e9\\u65e5\"", "\"a b\\tc\\n\"", "BIG_S", "None", "True", "False",
     "[]", "[1]", "[1, \"a\", None]", "[[]]", "NESTED_L", "SELF_L", "BIG_L", "{}", "{1: 2}", "{\"a\": [1]}", "SELF_D", "()", "(1,)", "(1, (2, 3))", "set()", "set([1, 2])",
-    "DEF_F", "DEF_0", "lambda x: x", "len", "int", "str", "list", "STRUCT_V", "REC_T", "REC_V", "ENUM_T", "ENUM_V", "range(3)", "range(0)", "range(1 << 40)",
+    "DEF_F", "DEF_0", "lambda x: x", "len", "int", "str", "list", "STRUCT_V", "REC_T", "REC_V", "ENUM_T", "ENUM_V", "range(3)", "range(0)", "range(1 << 16)",
     "typing.Any", "int | str", "[1].append", "\"a\".join", "struct", "struct()", "range(5, 0, -1)",
 ]
 SAMPLE_VALUES = ["\"abc\"", "[1, 2]", "{\"a\": 1}", "set([1])", "(1, 2)", "1", "1.5", "True", "None", "range(3)", "STRUCT_V", "REC_V", "REC_T", "ENUM_T", "ENUM_V", "DEF_F", "len",
@@ -97,7 +97,9 @@ def gen_snippets(rng, glob, methods, n):
                 recv = rng.choice(ARGS)
             expr = "(%s).%s(%s)" % (recv, m, _args(rng))
         elif k < 0.9:
-            expr = "(%s) %s (%s)" % (rng.choice(SMALL if rng.random() < 0.7 else ARGS), rng.choice(OPS), rng.choice(SMALL))
+            op = rng.choice(OPS)
+            # repeat counts stay bounded: `*` only combines small operands
+            expr = "(%s) %s (%s)" % (rng.choice(SMALL if (op == "*" or rng.random() < 0.7) else ARGS), op, rng.choice(SMALL))
         elif k < 0.95:
             expr = "(%s)[%s]" % (rng.choice(ARGS), rng.choice(ARGS + ["0:1", "::-1", "1:", ":-1:2", "::0"]))
         else:
@@ -288,7 +290,7 @@ def run(tier):
         "flavors": [f for f, _ in flavors],
     }
     rep.assumptions = ["allocation failure (address-space limit) and timeouts are inconclusive, never violations",
-                       "repeat counts in generated arguments are bounded (BIG_S 1 MiB, BIG_L 16 Ki elements, multipliers <= 65536)"]
+                       "sizes in generated arguments are bounded so that products stay <= 2^24 (BIG_S 4 KiB, BIG_L 4096 elements, multipliers <= 65536)"]
     rep.finish(sanity_ok=st["items"] > ncases * 20 and st["err"] > 100 and st["probes"] > 100, sanity_msg="too few evaluations")
 
 
